@@ -142,6 +142,78 @@ fn rerun_programs() -> Vec<(String, String, String)> {
     v
 }
 
+/// Whole programs one after the other ON ONE THREAD, each on a fresh machine, fresh contexts and a fresh assembly:
+/// the last program of every sequence of up to 3 programs must behave exactly as when it runs alone on a brand-new
+/// thread. The programs share procedure names, label names and the emitted positions of their calls and jumps while
+/// the targets differ (state kept per thread - a thread_local table keyed by a name or by a position - is seen here;
+/// the command-line binary, one program per process, can never show it).
+fn program_sequences(rep: &Reporter, c: &Counters) -> u64 {
+    let progs: Vec<&'static str> = vec![
+        "def p {\ninc si\n}\ndef q {\ninc di\n}\nstart:\ncall p\nmov cx, 2\nagain:\ninc ax\nloop again\n",
+        "def q {\ninc di\n}\ndef p {\ninc si\n}\nstart:\ncall p\nmov cx, 2\ninc bx\nagain:\ninc ax\nloop again\n",
+        "def q {\nadd di, 5\n}\ndef p {\ncall q\n}\nstart:\ncall q\njmp again\ninc bx\nagain:\ncall p\n",
+        "start:\nmov cx, 2\nagain:\ninc ax\nloop again\njmp done\ninc dx\ndone:\n",
+        "start:\njmp done\nagain:\ninc ax\ndone:\nmov cx, 3\nback:\nadd bx, 2\nloop back\n",
+        "bv: db 7\nwv: dw 0x1234\ndef p {\nmov al, byte bv\n}\nstart:\ncall p\nmov bx, word wv\n",
+        "wv: dw 0x4321\nbv: db 9\ndef p {\nmov al, byte bv\n}\nstart:\ncall p\nmov bx, word wv\n",
+    ];
+    fn run_seq(progs: &[&'static str]) -> Result<(Vec<usize>, [u16; 14], String), String> {
+        // a brand-new thread: nothing of this process's earlier work is in its thread-local state
+        let list: Vec<&'static str> = progs.to_vec();
+        std::thread::spawn(move || {
+            let mut last = Err("empty".to_string());
+            for src in list {
+                let asm = crate::pipe::assemble_fresh(src).map_err(|e| format!("{:?}", e))?;
+                let mut vm = emulator_8086_lib::VM::new();
+                let r = run_program(&asm, &mut vm, 2000)?;
+                last = Ok((r.trace.clone(), regs_of(&vm).as_array(), format!("{:?}", r.stop)));
+            }
+            last
+        })
+        .join()
+        .unwrap_or_else(|_| Err("thread panicked".into()))
+    }
+    let alone: Vec<Result<(Vec<usize>, [u16; 14], String), String>> = progs.iter().map(|p| run_seq(&[*p])).collect();
+    for (k, a) in alone.iter().enumerate() {
+        match a {
+            Ok((_, _, stop)) if stop.contains("Halt") => {}
+            other => {
+                eprintln!("MACHINERY: C19 sequence program {} does not run to its end alone: {:?}", k, other);
+                std::process::exit(2);
+            }
+        }
+    }
+    let n = progs.len();
+    let mut seqs: Vec<Vec<usize>> = Vec::new();
+    for a in 0..n {
+        for b in 0..n {
+            seqs.push(vec![a, b]);
+            for d in 0..n {
+                seqs.push(vec![a, b, d]);
+            }
+        }
+    }
+    seqs.par_iter().for_each(|sq| {
+        let list: Vec<&'static str> = sq.iter().map(|k| progs[*k]).collect();
+        let got = run_seq(&list);
+        c.add_exec(sq.len() as u64);
+        let want = &alone[*sq.last().unwrap()];
+        if &got != want {
+            rep.report(Viol {
+                site: "programs one after the other on one thread".into(),
+                field: "state".into(),
+                vars: vec![],
+                got_val: None,
+                expected: format!("the last program behaves as on a fresh thread: {:?}", want),
+                got: format!("{:?}", got),
+                case: json!({"programs_in_order": list}),
+                weight: sq.len() as u64,
+            });
+        }
+    });
+    seqs.len() as u64
+}
+
 fn repo_dir() -> String {
     std::env::var("VERIF_REPO").unwrap_or_else(|_| "/repo".to_string())
 }
@@ -450,6 +522,9 @@ pub fn run(tier: &Tier) -> i32 {
             }
         }
     });
+
+    // ---------------- whole programs in sequence on one thread
+    let seq_programs = program_sequences(rep, c);
 
     // ---------------- (b) fresh machine
     let fresh_checks = AtomicU64::new(0);
@@ -897,8 +972,8 @@ pub fn run(tier: &Tier) -> i32 {
     }
     let mut cov = Coverage::default();
     cov.exhaustive = true;
-    cov.rule = format!("(a) {} programs with 1-4 entries in the undefined-label set (every order of appearance of up to 4 undefined labels, forward jumps to defined labels in the same set, a label used twice, missing start, later range error, labels in procedures and macros) each run under ALL iteration orders of the set (hook VERIF_ORDER, k! orders) plus two runs in natural hash order: outputs must be byte-identical; {} further programs (the repository's examples, syntax errors, prompt session, divide error, input) rerun 8 times in separate processes; among them 16 refused programs with several macros / labels / procedures / data labels each (mutual recursion through 2, 3 and 4 macros, no start, duplicates, unknown names), whose diagnostic must not depend on the order of a hash collection (repetition, not enumeration). (b) VM::new() and VM::default() after every history of <= 2 instructions on another machine: all registers and all 2^20 bytes zero except FLAGS=F000h, CS=FFFFh. (c) explicit-state: all pairs of instruction streams of length <= {} over a {}-instruction alphabet (register, flag, memory, stack{} instructions) on two machines with different initial states sharing ONE Interpreter object, in ALL interleavings; each machine's final registers, call stack, return values and watched memory cells must equal the stream run alone on fresh objects (whole-memory audit on a subset). (d) every history of <= {} lines (12-14 line alphabets: valid, invalid, erroring, REP, call/ret, recursion error) through one Preprocessor / DataParser / Interpreter object followed by each probe line: answer and effect equal a fresh object's; the same for one preprocessor CONTEXT that is cleared with the library's clear() and reused (histories ending in the nesting limit, recursion and range errors), including the source map such a context yields; print reader: histories of <= 2 commands in one prompt session of the real binary. Free-running 8-thread smoke run with private machines (not deciding). Static audit of iteration/static/clock sites listed under unowned_nondeterminism_candidates (a note, not a verdict)", progs.len(), reruns.len(), maxlen, env.alpha.len(), if tier.thorough { ", call/ret, REP, xchg, label operand" } else { "" }, hl);
-    cov.bounds = json!({"order_programs": progs.len(), "order_runs": orders_run.load(Ordering::Relaxed), "distinct_first_lines_in_order_runs": distinct_msgs.lock().unwrap().len(), "rerun_programs": reruns.len(), "fresh_machine_checks": fresh_checks.load(Ordering::Relaxed), "streams": streams.len(), "stream_pairs": pairs_n.load(Ordering::Relaxed), "interleaved_runs": inter_n.load(Ordering::Relaxed), "whole_memory_audits": full_audits.load(Ordering::Relaxed), "parser_history_probes": hist_n.load(Ordering::Relaxed), "prompt_session_probes": prompt_hist.load(Ordering::Relaxed), "threads_joined": thread_runs, "tier": tier.name()});
+    cov.rule = format!("(a) {} programs with 1-4 entries in the undefined-label set (every order of appearance of up to 4 undefined labels, forward jumps to defined labels in the same set, a label used twice, missing start, later range error, labels in procedures and macros) each run under ALL iteration orders of the set (hook VERIF_ORDER, k! orders) plus two runs in natural hash order: outputs must be byte-identical; {} further programs (the repository's examples, syntax errors, prompt session, divide error, input) rerun 8 times in separate processes; among them 16 refused programs with several macros / labels / procedures / data labels each (mutual recursion through 2, 3 and 4 macros, no start, duplicates, unknown names), whose diagnostic must not depend on the order of a hash collection (repetition, not enumeration). (b) VM::new() and VM::default() after every history of <= 2 instructions on another machine: all registers and all 2^20 bytes zero except FLAGS=F000h, CS=FFFFh. (c) explicit-state: all pairs of instruction streams of length <= {} over a {}-instruction alphabet (register, flag, memory, stack{} instructions) on two machines with different initial states sharing ONE Interpreter object, in ALL interleavings; each machine's final registers, call stack, return values and watched memory cells must equal the stream run alone on fresh objects (whole-memory audit on a subset). (d) every history of <= {} lines (12-14 line alphabets: valid, invalid, erroring, REP, call/ret, recursion error) through one Preprocessor / DataParser / Interpreter object followed by each probe line: answer and effect equal a fresh object's; the same for one preprocessor CONTEXT that is cleared with the library's clear() and reused (histories ending in the nesting limit, recursion and range errors), including the source map such a context yields; print reader: histories of <= 2 commands in one prompt session of the real binary. (e) every sequence of 2 and 3 whole programs out of 7 (shared procedure / label names and call / jump positions, different targets) run one after the other on ONE thread with fresh machine, contexts and assembly each: the last one must behave exactly as alone on a brand-new thread. Free-running 8-thread smoke run with private machines (not deciding). Static audit of iteration/static/clock sites listed under unowned_nondeterminism_candidates (a note, not a verdict)", progs.len(), reruns.len(), maxlen, env.alpha.len(), if tier.thorough { ", call/ret, REP, xchg, label operand" } else { "" }, hl);
+    cov.bounds = json!({"order_programs": progs.len(), "order_runs": orders_run.load(Ordering::Relaxed), "distinct_first_lines_in_order_runs": distinct_msgs.lock().unwrap().len(), "rerun_programs": reruns.len(), "fresh_machine_checks": fresh_checks.load(Ordering::Relaxed), "streams": streams.len(), "stream_pairs": pairs_n.load(Ordering::Relaxed), "interleaved_runs": inter_n.load(Ordering::Relaxed), "whole_memory_audits": full_audits.load(Ordering::Relaxed), "parser_history_probes": hist_n.load(Ordering::Relaxed), "prompt_session_probes": prompt_hist.load(Ordering::Relaxed), "threads_joined": thread_runs, "program_sequences_on_one_thread": seq_programs, "tier": tier.name()});
     cov.extra.insert("unowned_nondeterminism_candidates".into(), json!(audit));
     cov.assumptions = common_assumptions();
     cov.assumptions.push("OS-thread schedules are not enumerable for code without synchronisation points: the library has no unsafe, statics or interior mutability (see the audit list), so &mut exclusivity makes schedules unobservable; the schedule quantifier is discharged by the exhaustive sequential interleavings".into());
